@@ -196,8 +196,10 @@ class Point2D(object):
     def scale(self, xscale: float, yscale: float) -> Point2D:
         float(xscale)
         float(yscale)
-        self._x *= xscale
-        self._y *= yscale
+        new_x = self._x * xscale
+        new_y = self._y * yscale
+        self._x = new_x
+        self._y = new_y
         return self
 
 
